@@ -42,6 +42,11 @@ def make_case_objects(t, k, sim, rng, ids=None, resample=None, cell_perm=None, s
         if cell_perm:
             desc["C"] = [C[i] for i in cell_perm]
         desc["E"] = build.edges_from_cells(desc["C"], first_id=ids.get("offset", 0))
+        if ids.get("shuffle") is not None:
+            eids = [e[0] for e in desc["E"]]
+            perm = eids[:]
+            ids["shuffle"].shuffle(perm)
+            desc["E"] = [[perm[i], a, b] for i, (_, a, b) in enumerate(desc["E"])]
     vertices, edges, cells_o = build.build_mesh(desc)
     if resample:
         try:
@@ -405,7 +410,7 @@ def make_tissue(spec, rng):
         return t
     if src["kind"] == "catalogue":
         trng = random.Random(src.get("tseed", 0))
-        return cattissue.make(src["base"], cells=src.get("cells"), sagitta=src.get("sagitta"), rng=trng)
+        return cattissue.make(src["base"], cells=src.get("cells"), sagitta=src.get("sagitta"), rng=trng, jitter=src.get("jitter", 0.0))
     raise ValueError(src)
 
 
